@@ -41,7 +41,9 @@ try:
         print("PORT-FAILED", patch, b.stderr[:800]); sys.exit(1)
     run("git", "add", "-A")
     d = run("git", "diff", "--cached", "HEAD", "--", ".", ":!seeded_demo").stdout
-    shutil.copy(patch, os.path.join(os.path.dirname(patch), os.path.basename(patch).replace(".diff", ".orig.diff").replace(".patch", ".orig.patch~")))
+    orig = os.path.join(os.path.dirname(patch), os.path.basename(patch).replace(".diff", ".orig.diff").replace(".patch", ".orig.patch~"))
+    if not os.path.exists(orig):
+        shutil.copy(patch, orig)
     open(patch, "w").write(d)
     print("PORTED", patch)
 finally:
